@@ -1,6 +1,7 @@
 CHECK = {
     "suites": [suite("allocate", "c03", 6000, 600000, stdin=True)],
-    "lean_sources": ["ClusterVerif/Model/C03.lean", "ClusterVerif/Spec/C03.lean", "ClusterVerif/Lemmas/C03.lean", "ClusterVerif/Lemmas/C03Sort.lean"],
+    "gen": [{"pkg": "extract_c03", "out": "lean/ClusterVerif/Gen/C03.lean"}],
+    "lean_sources": ["ClusterVerif/Model/C03Skeleton.lean", "ClusterVerif/Gen/C03.lean", "ClusterVerif/Model/C03.lean", "ClusterVerif/Spec/C03.lean", "ClusterVerif/Lemmas/C03.lean", "ClusterVerif/Lemmas/C03Sort.lean"],
     "rule": "cases = (strategy, factor pair, 0-8 peers each in one of 5 metric states, current/exclusion/priority lists) "
             "drawn from one splitmix64 stream per case index; non-trivial = positive factors or everywhere (-1,-1); distinct by case line",
     "trusted_base": ["metrics.Store-backed monitor stands in for pubsubmon (LatestValid is the real code)",
@@ -12,8 +13,10 @@ META = {
     "text": "Kernel-checked theorem allowed_holds: for every input (any peers, metric states, lists, factor pair, both strategies) and every "
             "output the model relation of allocate() admits under any map-iteration order and any tie-break of Go's unstable sort, all clauses "
             "of the property hold (no size bound). The relation is tied to today's code by running the real allocate()/allocators/metrics.Store "
-            "on thousands of seeded cases per run and checking (a) the real output is in the relation and (b) the Lean property checker on the real output.",
+            "on thousands of seeded cases per run and checking (a) the real output is in the relation and (b) the Lean property checker on the real output; "
+            "and by a go/ast translator that regenerates the decision skeleton of allocate(), obtainAllocations(), isReplicationFactorValid() and the shipped "
+            "allocators on every run, compared by `decide` with the skeleton the model was transcribed from (gen_* theorems).",
     "note": "Trusted: Lean kernel (+propext, Classical.choice, Quot.sound), the hand-written model/spec, the Go harness and its store-backed monitor, "
             "verif_export.go wrappers. A non-numeric metric is treated as unusable for new allocations.",
-    "technique": "Lean 4 theorem over relational model + differential correspondence with the real allocate()",
+    "technique": "Lean 4 theorem over relational model + regenerated source skeleton checked by decide + differential correspondence with the real allocate()",
 }
